@@ -1,6 +1,12 @@
 pub mod known;
 
 pub mod c05;
+pub mod c07;
+pub mod c08;
+pub mod c09;
+pub mod c10;
+pub mod sets;
+pub mod c20;
 
 use crate::engine::{Report, Tier};
 use known::Known;
@@ -10,6 +16,11 @@ pub fn run(id: &str, tier: Tier, seed: u64, known: &[Known]) -> Option<Report> {
     let _ = known;
     Some(match id {
         "C05" => c05::run(tier, seed),
+        "C07" => c07::run(tier, seed),
+        "C08" => c08::run(tier, seed),
+        "C09" => c09::run(tier, seed),
+        "C10" => c10::run(tier, seed),
+        "C20" => c20::run(tier, seed),
         _ => return None,
     })
 }
@@ -17,6 +28,11 @@ pub fn run(id: &str, tier: Tier, seed: u64, known: &[Known]) -> Option<Report> {
 pub fn replay(id: &str, section: &str, case: &Value) -> Option<Result<(), String>> {
     match id {
         "C05" => c05::replay(section, case),
+        "C07" => c07::replay(section, case),
+        "C08" => c08::replay(section, case),
+        "C09" => c09::replay(section, case),
+        "C10" => c10::replay(section, case),
+        "C20" => c20::replay(section, case),
         _ => None,
     }
 }
